@@ -13,7 +13,8 @@
 (* External (environment / API) actions, driven by action records `a`:     *)
 (*   start   accept-loop iteration for a new connection: refuse (close)    *)
 (*           when ConnCount() >= maxConn, else Start (count+1, 2 loops)    *)
-(*   send    Session.Send(b)    close   Session.Close()                    *)
+(*   send    Session.Send(b)    close   Session.Close()   (both also before *)
+(*           Start: life-cycle orders NewSession-Close-Start etc.)         *)
 (*   wok     the pending conn.Write completes (the peer reads)             *)
 (*   wfault  the pending conn.Write fails after n bytes (error / timeout)  *)
 (*   rok     the handler's Read returns nil (a frame arrived)              *)
@@ -32,6 +33,7 @@
 (* Dev names a deviation of the code from the design (non-vacuity):        *)
 (*   "pop"     send loop uses Pop (gives up when the queue is closed)      *)
 (*   "noonce"  quit without exitOnce                                       *)
+(*   "closequit" Close before Start runs the exit body (count - 1, no + 1) *)
 (***************************************************************************)
 EXTENDS Integers, Sequences, FiniteSets, TLC
 
@@ -80,9 +82,13 @@ DoStart(a) ==
           /\ Set(a.s, [c EXCEPT !.st = "run", !.sp = "pop", !.rp = "read"])
           /\ count' = count + 1
 
+(* send and close are also possible on a session object that is not started *)
+(* yet (NewSession, no Start): the queue takes the bytes / is closed, nothing  *)
+(* else happens until Start; a session that is closed and never started     *)
+(* never exits, is never counted, and its connection stays as it is.        *)
 DoSend(a) ==
   LET c == ss[a.s] IN
-  /\ c.st = "run"
+  /\ c.st \in {"new", "run"}
   /\ UNCHANGED count
   /\ IF a.b = <<>>                       \* nothing to deliver: accepted or refused, no effect
      THEN a.r \in {"ok", "err"} /\ UNCHANGED ss
@@ -92,9 +98,15 @@ DoSend(a) ==
 
 DoClose(a) ==
   LET c == ss[a.s] IN
-  /\ c.st = "run"
-  /\ Set(a.s, [c EXCEPT !.qcl = TRUE, !.lclose = TRUE])
-  /\ UNCHANGED count
+  /\ c.st \in {"new", "run"}
+  /\ IF Dev = "closequit" /\ c.st = "new"
+     THEN \* deviation: Close uses up the start and runs the exit body itself (no Inc ever)
+          /\ Set(a.s, [c EXCEPT !.st = "run", !.qcl = TRUE, !.lclose = TRUE, !.exits = @ + 1,
+                                !.decs = @ + 1, !.copen = FALSE, !.once = "done",
+                                !.sp = "done", !.rp = "done"])
+          /\ count' = count - 1
+     ELSE /\ Set(a.s, [c EXCEPT !.qcl = TRUE, !.lclose = TRUE])
+          /\ UNCHANGED count
 
 DoWok(a) ==
   LET c == ss[a.s] IN
